@@ -120,7 +120,7 @@ class Conc:
         if k == "gepconst":
             bty, base, idx = o.val
             return self.gep(self.val(env, base), bty, [self.val(env, x) for x in idx])
-        if k == "bitcast":
+        if k in ("bitcast", "p2iconst"):
             return self.val(env, o.val)
         if k == "null":
             return ("ptr", None, 0)
@@ -308,6 +308,10 @@ class Conc:
             return
         if op == "load":
             p = self.val(env, i.ops[0])
+            ent_ = self.mod.globals.get(p[1])
+            if ent_ is not None and ent_[1] is None and ent_[2] and ("private" in ent_[3] or "internal" in ent_[3]):
+                env[i.res] = 0          # undef-initialised private constant (padding of an empty closure): any value will do
+                return
             esz, ebits, vals, gsz = self.an.flat_global(p[1])
             off = p[2]
             if off < 0 or off > gsz - esz or off % esz:
